@@ -186,6 +186,28 @@ func (env *Env) callExpr(c *ast.CallExpr) Value {
 			v = env.x.makeIface(env.s, v, types.NewInterfaceType(nil, nil))
 		}
 		return Value{T: tInt, S: env.x.akeyOf(env.s, env.hp, v)}
+	case "akeygo": // abstract key identity of the *Key that NewKey builds from a Go value
+		v := arg(0)
+		x := env.x
+		x.declareFun("akey_sqlite", []string{sInt, sInt, sFP, sStr, sStr}, sInt)
+		x.declareFun("akey_generic", []string{sInt, sInt}, sInt)
+		tag, box := v.F[0].S, v.F[1].S
+		ti64 := x.v.tagOf(types.Typ[types.Int64])
+		tf64 := x.v.tagOf(types.Typ[types.Float64])
+		tstr := x.v.tagOf(types.Typ[types.String])
+		tbl := x.v.tagOf(types.NewSlice(types.Typ[types.Uint8]))
+		fv := x.unbox(env.s, box, types.Typ[types.Float64]).S
+		sv := x.unbox(env.s, box, types.Typ[types.String]).S
+		bv := x.unbox(env.s, box, types.NewSlice(types.Typ[types.Uint8]))
+		bs := x.bytesStr(env.s, env.hp, bv)
+		z := "(_ +zero 11 53)"
+		e := "\"\""
+		t := ite(eq(tag, ti64), app("akey_sqlite", "1", box, z, e, e),
+			ite(eq(tag, tf64), app("akey_sqlite", "2", "0", fv, e, e),
+				ite(eq(tag, tstr), app("akey_sqlite", "3", "0", z, sv, e),
+					ite(eq(tag, tbl), app("akey_sqlite", "4", "0", z, e, bs),
+						ite(eq(tag, "0"), app("akey_sqlite", "0", "0", z, e, e), app("akey_generic", tag, box))))))
+		return Value{T: tInt, S: t}
 	case "iface2": // an interface value from its (tag, box) pair
 		return ifaceVal(types.NewInterfaceType(nil, nil), arg(0).S, arg(1).S)
 	case "iface": // box a value into interface{} (nil stays the nil interface)
